@@ -296,8 +296,21 @@ def dir_muts(d):
 
     def empty_dir(t):
         t.dirs.add(j('zd'))
-    return [('stray_file', stray), ('stray_hidden', hidden), ('stray_subdir', subdir),
-            ('stray_in_hidden_dir', hidden_dir), ('empty_dir', empty_dir)]
+
+    def to_file(t):
+        # the directory itself becomes a regular file: everything listed beneath it is missing now
+        for p in [p for p in t.files if p.startswith(d + '/')]:
+            del t.files[p]
+        for p in [p for p in t.links if p.startswith(d + '/')]:
+            del t.links[p]
+        for p in [p for p in t.dirs if p == d or p.startswith(d + '/')]:
+            t.dirs.discard(p)
+        t.files[d] = b'was a directory'
+    out = [('stray_file', stray), ('stray_hidden', hidden), ('stray_subdir', subdir),
+           ('stray_in_hidden_dir', hidden_dir), ('empty_dir', empty_dir)]
+    if d:
+        out.append(('dir_to_file', to_file))
+    return out
 
 
 def manifest_tamper(mp):
